@@ -301,6 +301,11 @@ def confirm(v):
     ref = py_ref(s)
     if out.startswith('PANIC'):
         return True, out
+    if v.get('kind') == 'panic':
+        # an arithmetic-overflow event wraps in the release profile; in the dev profile (overflow checks on) it is a panic
+        dbg = H.replay_lines(['parse\t%s\t10' % hexs], 'debug')[0]
+        if dbg.startswith('PANIC'):
+            return True, 'debug profile: %s ; release profile: %s' % (dbg[:100], out[:60])
     exp = 'Err' if ref is None else H.dec_str(*ref)
     return out != exp, '%r -> %s (reference %s)' % (s, out, exp)
 
